@@ -22,13 +22,21 @@ pub enum Answer {
 
 impl Worker {
     pub fn spawn(mode: &str) -> Worker {
-        let exe = std::env::current_exe().expect("current_exe");
+        Self::spawn_exe(None, mode, &[])
+    }
+    /// `exe`: another build of this binary (e.g. the AddressSanitizer build) to serve the requests
+    pub fn spawn_exe(exe: Option<&str>, mode: &str, env: &[(String, String)]) -> Worker {
+        let exe = match exe {
+            Some(e) => std::path::PathBuf::from(e),
+            None => std::env::current_exe().expect("current_exe"),
+        };
         let mut child = Command::new(exe)
             .arg("CHILD")
             .env("NQV_CHILD", mode)
             .env("NQV_CHILD_ABORT_ON_PANIC", "1")
             .env("RUST_BACKTRACE", "0")
             .env("RUST_LIB_BACKTRACE", "0")
+            .envs(env.iter().map(|(k, v)| (k.as_str(), v.as_str())))
             .stdin(Stdio::piped())
             .stdout(Stdio::piped())
             .stderr(Stdio::null())
@@ -81,23 +89,34 @@ impl Drop for Worker {
 
 pub struct Pool {
     mode: String,
+    exe: Option<String>,
+    env: Vec<(String, String)>,
     workers: Vec<Mutex<Worker>>,
 }
 
 impl Pool {
     pub fn new(mode: &str, n: usize) -> Pool {
+        Self::with_exe(None, mode, n, vec![])
+    }
+    pub fn with_exe(exe: Option<String>, mode: &str, n: usize, env: Vec<(String, String)>) -> Pool {
         Pool {
             mode: mode.to_string(),
-            workers: (0..n.max(1)).map(|_| Mutex::new(Worker::spawn(mode))).collect(),
+            workers: (0..n.max(1)).map(|_| Mutex::new(Worker::spawn_exe(exe.as_deref(), mode, &env))).collect(),
+            exe,
+            env,
         }
     }
     pub fn ask(&self, slot: usize, req: &J) -> Answer {
         let mut w = self.workers[slot % self.workers.len()].lock().unwrap();
         let a = w.ask(req);
         if matches!(a, Answer::Died { .. }) {
-            *w = Worker::spawn(&self.mode);
+            *w = Worker::spawn_exe(self.exe.as_deref(), &self.mode, &self.env);
         }
         a
+    }
+    /// process id of the worker currently serving `slot` (to find a sanitizer's log file)
+    pub fn pid(&self, slot: usize) -> u32 {
+        self.workers[slot % self.workers.len()].lock().unwrap().child.id()
     }
     pub fn len(&self) -> usize {
         self.workers.len()
